@@ -437,7 +437,7 @@ def universe_of(case: dict, obs: dict) -> list[str]:
             u.append(x)
     for x in obs['owned'] + obs['selected']:
         add(x)
-    for hid, m in case['records'].items():
+    for hid, m in case.get('records', {}).items():
         add(hid)
         for s in m.get('subrefs') or []:
             add(s)
@@ -458,7 +458,12 @@ def observe(case: dict, stub: bool) -> dict:
     settings = make_settings(case['storage'])
     storage = settings.persistence.progress_storage
     raw = put_records(storage, base_body(case, settings), case['records'])
-    obs = run_step(case, raw, settings, stub, memory={'noticed_by_listing': case.get('mem_listed', False)})
+    return observe_on(case, raw, settings, stub, {'noticed_by_listing': case.get('mem_listed', False)})
+
+
+def observe_on(case: dict, raw: dict, settings: Any, stub: bool, memory: dict) -> dict:
+    storage = settings.persistence.progress_storage
+    obs = run_step(case, raw, settings, stub, memory=memory)
     obs['raw'] = raw
     u = universe_of(case, obs)
     obs['universe'] = u
@@ -805,7 +810,7 @@ def monitor_step(ctx: fw.Ctx, case: dict, obs: dict, stub: bool) -> None:
         if isinstance(a, dict) and before.get(k) == a:
             ctx.fail('an unchanged progress record was written again', data, observed={k: a}, sig='rewrite-unchanged')
     # children keep the parent open (only where the real execute_handler_once / subhandling.execute ran)
-    for k in ([] if stub else obs['selected']):
+    for k in ([] if stub else [x for x in obs['selected'] if any(c[0] == x for c in calls)]):
         a = obs['after'].get(k)
         if a is not None and a.get('success'):
             for s in a.get('subrefs') or []:
@@ -1020,11 +1025,15 @@ def one_case(ctx: fw.Ctx, case: dict, stub: bool, cases: list[fw.Case]) -> None:
         ctx.correspondence_break('D:progress', {'what': 'the generated body did not yield the wanted cause', 'want': want,
                                                 'got': obs['reason'], 'case': case})
         return
+    judge(ctx, case, obs, stub, cases)
+
+
+def judge(ctx: fw.Ctx, case: dict, obs: dict, stub: bool, cases: list[fw.Case], replay_restart: bool = True) -> None:
     if not set(obs['selected']) <= set(obs['owned']):
         ctx.fail('a cause handler is not among the resource handlers', {'layer': 'function', 'case': case}, observed=obs['selected'],
                  expected=obs['owned'], sig='selected-not-owned')
     # restart: the same view in a process with another memory behaves identically
-    if ctx.rng.random() < 0.25:
+    if replay_restart and ctx.rng.random() < 0.25:
         settings = make_settings(case['storage'])
         mem = {'noticed_by_listing': not case.get('mem_listed', False), 'fully_handled_once': True, 'memo': {'x': 1}}
         again = run_step(case, obs['raw'], settings, stub, memory=mem)
@@ -1056,6 +1065,119 @@ def one_case(ctx: fw.Ctx, case: dict, stub: bool, cases: list[fw.Case]) -> None:
                                    'invoked': obs['calls'], 'closed': obs['fho']}}, limit=8)
 
 
+# --------------------------------------------------------------------------------------
+# function-level histories: the real pipeline step after step on the evolving object (with sub-handlers, which the
+# whole-operator simulation does not generate)
+# --------------------------------------------------------------------------------------
+
+def gen_history(r: random.Random) -> dict:
+    hs = []
+    ids = r.sample(IDS, k=r.randrange(1, 4))
+    for fn, hid in enumerate(ids):
+        on = r.choice(['create', 'update', 'update', 'resume', 'resume', 'delete'])
+        d: dict[str, Any] = {'id': hid, 'on': on, 'match': r.random() < 0.9, 'fn': fn}
+        if r.random() < 0.6:
+            d['subs'] = [{'id': f's{j}', 'match': r.random() < 0.9} for j in range(r.randrange(1, 4))]
+        hs.append(d)
+        if r.random() < 0.25:
+            hs.append({**d, 'on': r.choice([q for q in REASONS if q != on])})
+    allids = [d['id'] for d in hs] + [f"{d['id']}/{x['id']}" for d in hs for x in d.get('subs', [])]
+    script: dict[str, dict] = {}
+    for hid in dict.fromkeys(allids):
+        tbl = {}
+        for n in range(4):
+            k = r.randrange(10)
+            tbl[n] = ['ok', r.choice([None, r.randrange(1, 50)])] if k < 6 or n == 3 else \
+                ['temp', r.choice([0, Q, 8 * Q]), r.choice(MSGS)] if k < 9 else ['perm', r.choice(MSGS)]
+        script[hid] = tbl
+    steps = []
+    for _ in range(r.randrange(3, 9)):
+        k = r.randrange(20)
+        ev = 'none' if k < 9 else 'spec' if k < 13 else 'toggle' if k < 16 else 'restart' if k < 18 else 'delete' if k < 19 else 'early'
+        steps.append({'event': ev, 'which': r.randrange(0, 8)})
+    return {'storage': r.choice(STORAGES), 'lifecycle': r.choice(LIFECYCLES[:3]), 'handlers': hs, 'script': script, 'steps': steps,
+            'start': r.choice(['new', 'listed-handled']), 'now': r.randrange(1000, 50000) * Q}
+
+
+def run_history(ctx: fw.Ctx, hist: dict, cases: list[fw.Case]) -> None:
+    settings = make_settings(hist['storage'])
+    handlers = copy.deepcopy(hist['handlers'])
+    now = hist['now']
+    base = {'reason': 'create' if hist['start'] == 'new' else 'resume', 'last_handled': 'none' if hist['start'] == 'new' else 'same',
+            'finalizer': True, 'spec_x': 1}
+    raw = base_body(base, settings)
+    mem = {'noticed_by_listing': hist['start'] != 'new', 'fully_handled_once': False}
+    succeeded: dict[str, int] = {}
+    explained: set[str] = set()
+    last_reason = None
+    total_calls = 0
+    for si, st in enumerate(hist['steps']):
+        evs = st['event'].split('+')
+        if 'spec' in evs:
+            raw = copy.deepcopy(raw)
+            raw['spec']['x'] += 1
+        if 'toggle' in evs and handlers:      # a filter of one function starts / stops matching the object
+            h = handlers[st['which'] % len(handlers)]
+            flipped = not h['match']
+            for other in handlers:
+                if other['id'] == h['id'] and other['fn'] == h['fn']:
+                    other['match'] = flipped
+        if 'restart' in evs:
+            mem = {'noticed_by_listing': True, 'fully_handled_once': False}
+        if 'delete' in evs:
+            raw = copy.deepcopy(raw)
+            raw['metadata']['deletionTimestamp'] = '2030-01-01T00:00:00Z'
+        case = {'reason': 'auto', 'now': now, 'storage': hist['storage'], 'lifecycle': hist['lifecycle'], 'handlers': copy.deepcopy(handlers),
+                'script': hist['script'], 'initial': bool(mem['noticed_by_listing'] and not mem['fully_handled_once']),
+                'default_outcome': {'final': True, 'exc': None, 'delay': None, 'result': None, 'subrefs': []},
+                'history_step': si}
+        obs = observe_on(case, raw, settings, False, {'noticed_by_listing': mem['noticed_by_listing']})
+        judge(ctx, {**case, 'history': {k: hist[k] for k in ('start', 'steps')}}, obs, False, cases, replay_restart=False)
+        # ids whose record was dropped in this step (whether matched by a known finding or not) explain a later re-run
+        for k, m0 in obs['body_records'].items():
+            if obs['after'].get(k) is None and not obs['fho']:
+                explained.add(k)
+        if obs['reason'] != last_reason:
+            succeeded.clear()
+            explained.clear()
+            last_reason = obs['reason']
+        for hid, n in obs['calls']:
+            total_calls += 1
+            fin = final_of(case, obs, False, hid, n)
+            act = hist['script'].get(hid, {}).get(n, ['ok', None])
+            if fin and act[0] == 'ok':
+                if hid in succeeded and hid not in explained:
+                    ctx.fail('a handler succeeded twice within one handling cycle', {'layer': 'function-history', 'history': hist, 'step': si, 'id': hid},
+                             observed={'first': succeeded[hid], 'again': si}, sig='double-success')
+                succeeded[hid] = si
+        raw = canon.merge7386(raw, obs['patch'])
+        if obs['fho']:
+            mem['fully_handled_once'] = True
+            succeeded.clear()
+            explained.clear()
+            if obs['reason'] == 'delete':       # what process_resource_causes does next: the finalizer goes, the object with it
+                raw['metadata']['finalizers'] = []
+        delays = obs['delays']
+        if si + 1 < len(hist['steps']) and 'early' in hist['steps'][si + 1]['event'].split('+'):
+            now += Q
+        else:
+            now += max(Q, min(delays)) if delays else 8 * Q
+    ctx.count('history_fn_calls', '0' if not total_calls else '1-3' if total_calls <= 3 else '4-8' if total_calls <= 8 else '>8')
+
+
+def load_corpus() -> list[dict]:
+    out = []
+    d = fw.ROOT / 'corpus' / 'C02'
+    for f in sorted(d.glob('fn_*.json')) if d.is_dir() else []:
+        import json
+        out.append(json.loads(f.read_text()))
+    return out
+
+
+def int_keys(tbl: dict) -> dict:
+    return {hid: {int(n): v for n, v in t.items()} for hid, t in tbl.items()}
+
+
 def differential(ctx: fw.Ctx) -> None:
     ok, logtxt = fw.build_models(['Model/Progress.v'])
     if not ok:
@@ -1068,10 +1190,23 @@ def differential(ctx: fw.Ctx) -> None:
     children: list[fw.Case] = []
     for case, stub in corpus_cases():
         one_case(ctx, case, stub, pipeline if stub else children)
+    for item in load_corpus():
+        if 'function_case' in item:
+            case = item['function_case']
+            for key in ('oracle', 'script'):
+                if key in case:
+                    case[key] = int_keys(case[key])
+            one_case(ctx, case, bool(item.get('stub')), pipeline if item.get('stub') else children)
+        elif 'function_history' in item:
+            hist = item['function_history']
+            hist['script'] = int_keys(hist['script'])
+            run_history(ctx, hist, children)
     for _ in range(ctx.scale(1100, 30000)):
         one_case(ctx, gen_case(r, True), True, pipeline)
-    for _ in range(ctx.scale(500, 12000)):
+    for _ in range(ctx.scale(350, 9000)):
         one_case(ctx, gen_case(r, False), False, children)
+    for _ in range(ctx.scale(90, 2500)):
+        run_history(ctx, gen_history(r), children)
     algebra = algebra_cases(ctx, ctx.scale(400, 8000))
     ctx.differential('progress_pipeline', HEADER, pipeline, shard=120)
     ctx.differential('progress_children', HEADER, children, shard=120)
